@@ -20,6 +20,15 @@
 //! key equal to what was written; read both with the schema object
 //! `upgrade_with` produced (what a live collection keeps using) and with that
 //! schema reloaded from its persisted CBOR form (what a reopened one loads).
+//!
+//! Mixed-version direction: for every permitted step that ADDS a top-level
+//! field, every document written under the new version is offered to
+//! `Document::try_from_doc` and `Document::set_doc` under the PREVIOUS version
+//! (in-memory object and persisted form): a document carrying a value under
+//! an index at or above the previous version's allocation watermark must be
+//! refused (never silently stripped); one that does not may be read and then
+//! shared fields read unchanged. Plus raw index probes at watermark-1 /
+//! watermark / watermark+1 for every schema version of the enumeration.
 
 use anda_db_schema::{Document, FieldEntry, FieldType, Schema};
 use serde_json::json;
@@ -340,6 +349,8 @@ struct Stats {
     docs_written: u64,
     failed_reads: u64,
     own_writes_rejected: u64,
+    mixed_version_reads: u64,
+    raw_index_probes: u64,
     cut: bool,
     found: Vec<Found>,
     sample: Option<serde_json::Value>,
@@ -387,6 +398,207 @@ fn dominant_class(chain: &[Config], from: usize) -> &'static str {
         best = best.min(p);
     }
     order[best]
+}
+
+// ---- mixed-version direction and raw index probes ------------------------------------
+
+/// Both ingest entries of stored bytes under `schema`: `Document::try_from_doc`
+/// and `Document::set_doc` on a fresh document. Ok(fields) / Err(message);
+/// a panic is reported as Err("PANIC ..").
+fn ingest(schema: &Arc<Schema>, owned: &anda_db_schema::DocumentOwned) -> Vec<(&'static str, Result<anda_db_schema::IndexedFieldValues, String>)> {
+    let a = catch_unwind(AssertUnwindSafe(|| {
+        Document::try_from_doc(schema.clone(), owned.clone()).map(|d| d.fields().clone()).map_err(|e| e.to_string())
+    }))
+    .unwrap_or_else(|_| Err("PANIC in try_from_doc".to_string()));
+    let b = catch_unwind(AssertUnwindSafe(|| {
+        let mut d = Document::new(schema.clone());
+        d.set_doc(owned.clone()).map(|_| d.fields().clone()).map_err(|e| e.to_string())
+    }))
+    .unwrap_or_else(|_| Err("PANIC in set_doc".to_string()));
+    vec![("try_from_doc", a), ("set_doc", b)]
+}
+
+fn note(st: &mut Stats, scope: Scope, chain: &[Config], chain_str: &str, kind: &str, class: &str, detail: String, extra: serde_json::Value) {
+    st.failed_reads += 1;
+    if st.found.len() >= 400 {
+        st.found.sort_by(|a, b| a.complexity.cmp(&b.complexity));
+        st.found.truncate(100);
+    }
+    st.found.push(Found {
+        complexity: (chain.len() * 10, 0, 0),
+        v: Violation {
+            signature: format!("C13|upgrade|{}|{kind}|{class}", scope.name()),
+            summary: format!("{} chain {chain_str}: {detail}", scope.full()),
+            replay: json!({
+                "scope": scope.full(),
+                "chain": chain.iter().map(|c| c.iter().map(|s| s.tag()).collect::<Vec<_>>()).collect::<Vec<_>>(),
+                "chain_readable": chain_str,
+                "mixed_version": extra,
+            }),
+        },
+    });
+}
+
+/// Documents written under version N+1 meet a reader still on version N
+/// (the in-memory schema object and its persisted form). What HEAD
+/// guarantees (`Document::drop_retired_fields`): a document carrying a value
+/// under an index the reader's lineage never allocated (>= its watermark) is
+/// REFUSED, never silently stripped; otherwise it may be read, and then
+/// every slot the two versions share reads unchanged. Only top-level fields
+/// have indexes; nested keys carry no such guarantee and are not probed.
+#[allow(clippy::too_many_arguments)]
+fn newer_docs_under_older(
+    scope: Scope,
+    slots: &[Slot],
+    chain: &[Config],
+    chain_str: &str,
+    prev_cfg: &Config,
+    prev_lineage: &[Option<u32>],
+    lineages_before: u32,
+    readers: &[(&str, Arc<Schema>)],
+    fresh: &[Stored],
+    st: &mut Stats,
+) {
+    for d in fresh {
+        let Ok(owned) = cbor2::from_reader::<anda_db_schema::DocumentOwned, _>(&d.orig[..]) else { continue };
+        let carries_new = d.expect.iter().flatten().any(|(l, _)| *l > lineages_before);
+        for (ri, (rname, reader)) in readers.iter().enumerate() {
+            // the persisted form of the older schema matters for the refusal; shared-field
+            // equality is checked with the in-memory object only
+            if ri > 0 && !carries_new {
+                continue;
+            }
+            for (api, res) in ingest(reader, &owned) {
+                st.reads += 1;
+                st.mixed_version_reads += 1;
+                match res {
+                    Err(e) if e.starts_with("PANIC") => {
+                        note(st, scope, chain, chain_str, "panic", "mixed-version", e, json!({"api": api, "reader": rname}))
+                    }
+                    Err(_) => {}
+                    Ok(fields) if carries_new => note(
+                        st,
+                        scope,
+                        chain,
+                        chain_str,
+                        "foreign-index-accepted",
+                        "newer-document-under-older-schema",
+                        format!(
+                            "a document written under the new version with {:?} was accepted by {api} under the previous version ({rname}) and read as {fields:?}: the value under the never-allocated index was silently dropped instead of the document being refused",
+                            d.expect.iter().enumerate().filter_map(|(i, e)| e.as_ref().map(|(_, v)| format!("{}={v:?}", slots[i].name))).collect::<Vec<_>>()
+                        ),
+                        json!({"api": api, "reader": rname}),
+                    ),
+                    Ok(fields) => {
+                        // shared slots must read unchanged
+                        for (i, s) in slots.iter().enumerate() {
+                            if let (Some((l, want)), Some(pl)) = (&d.expect[i], prev_lineage[i])
+                                && *l == pl
+                            {
+                                let t = slot_type(s, prev_cfg[i]).expect("declared");
+                                let got = reader.get_field(s.name).and_then(|f| fields.get(&f.idx()));
+                                if !got.is_some_and(|g| model::same_declared(&t, want, g)) {
+                                    note(
+                                        st,
+                                        scope,
+                                        chain,
+                                        chain_str,
+                                        "surviving-field-changed",
+                                        "newer-document-under-older-schema",
+                                        format!("field {} written {want:?} under the new version reads {got:?} under the previous one ({api}, {rname})", s.name),
+                                        json!({"api": api, "reader": rname}),
+                                    );
+                                }
+                            }
+                        }
+                    }
+                }
+            }
+        }
+    }
+}
+
+/// Raw index probes: a valid stored document of this schema version gets one
+/// extra value under index watermark-1, watermark, watermark+1 (watermark by
+/// the harness's own count: 1 + number of fields ever declared in the
+/// lineage). Never-allocated (>= watermark): must be refused. Retired
+/// (< watermark, allocated once, not declared now): the stale value is
+/// dropped and everything else reads unchanged. Declared indexes are skipped.
+#[allow(clippy::too_many_arguments)]
+fn raw_index_probes(
+    scope: Scope,
+    chain: &[Config],
+    chain_str: &str,
+    live: &[Option<u32>],
+    lineages_so_far: u32,
+    readers: &[(&str, Arc<Schema>)],
+    base: Option<&Stored>,
+    st: &mut Stats,
+) {
+    let Some(base) = base else { return };
+    let Ok(owned) = cbor2::from_reader::<anda_db_schema::DocumentOwned, _>(&base.orig[..]) else { return };
+    let (watermark, declared): (usize, Vec<usize>) = match scope {
+        Scope::Top => (lineages_so_far as usize + 1, std::iter::once(0).chain(live.iter().flatten().map(|l| *l as usize)).collect()),
+        Scope::Nested(_) => (2, vec![0, 1]),
+    };
+    for idx in [watermark - 1, watermark, watermark + 1] {
+        if declared.contains(&idx) {
+            continue;
+        }
+        let mut probe = owned.clone();
+        probe.fields.insert(idx, Fv::Text("foreign".into()));
+        for (rname, reader) in readers {
+            let clean: Vec<_> = ingest(reader, &owned);
+            for ((api, res), (_, base_res)) in ingest(reader, &probe).into_iter().zip(clean) {
+                st.reads += 1;
+                st.raw_index_probes += 1;
+                let at = if idx >= watermark { format!("watermark+{}", idx - watermark) } else { "watermark-1".to_string() };
+                let extra = json!({"api": api, "reader": rname, "raw_index": idx, "watermark": watermark});
+                match (idx >= watermark, res) {
+                    (_, Err(e)) if e.starts_with("PANIC") => note(st, scope, chain, chain_str, "panic", "raw-index", e, extra),
+                    (true, Err(_)) => {}
+                    (true, Ok(fields)) => note(
+                        st,
+                        scope,
+                        chain,
+                        chain_str,
+                        "foreign-index-accepted",
+                        &format!("raw-index-at-{at}"),
+                        format!("a stored document with a value under index {idx} (allocation watermark {watermark}: never allocated) was accepted by {api} ({rname}) and read as {fields:?}"),
+                        extra,
+                    ),
+                    (false, Err(e)) => note(
+                        st,
+                        scope,
+                        chain,
+                        chain_str,
+                        "retired-index-refused",
+                        "raw-index-at-watermark-1",
+                        format!("a stored document with a stale value under the retired index {idx} (watermark {watermark}) is refused by {api} ({rname}): {e}"),
+                        extra,
+                    ),
+                    (false, Ok(fields)) => {
+                        let same = match &base_res {
+                            Ok(b) => b.len() == fields.len() && b.iter().zip(&fields).all(|((i, x), (j, y))| i == j && model::bit_eq(x, y)),
+                            Err(_) => false,
+                        };
+                        if !same {
+                            note(
+                                st,
+                                scope,
+                                chain,
+                                chain_str,
+                                "retired-index-kept",
+                                "raw-index-at-watermark-1",
+                                format!("with a stale value under the retired index {idx} the document reads {fields:?}, without it {base_res:?} ({api}, {rname})"),
+                                extra,
+                            );
+                        }
+                    }
+                }
+            }
+        }
+    }
 }
 
 #[allow(clippy::too_many_arguments)]
@@ -440,7 +652,7 @@ fn step(
         st.upgrades_permitted += 1;
         st.chains.push(util::fnv64(format!("{}|{chain_str}", scope.full()).as_bytes()));
         // model of survival: a slot keeps its lineage while it stays declared
-        let prev_cfg = &chain[chain.len() - 2];
+        let prev_cfg = &chain[chain.len() - 2].clone();
         let mut nl = next_lineage;
         let new_lineage: Vec<Option<u32>> = (0..slots.len())
             .map(|i| match (prev_cfg[i], cfg[i]) {
@@ -551,6 +763,17 @@ fn step(
         }
         let fresh = write_docs(scope, slots, cfg, &new_lineage, &new, chain.len() - 1, &mut st.own_writes_rejected);
         st.docs_written += fresh.len() as u64;
+        // mixed-version direction: the documents just written under the new
+        // version meet a reader still on the previous one (top-level fields only)
+        let probe_raw = matches!(scope, Scope::Top | Scope::Nested(Wrap::Direct));
+        if scope == Scope::Top && nl > next_lineage {
+            let prev_readers = [("its in-memory schema object", Arc::new(schema.clone())), ("its persisted schema", Arc::new(old.clone()))];
+            newer_docs_under_older(scope, slots, chain, &chain_str, prev_cfg, lineage, next_lineage, &prev_readers, &fresh, st);
+        }
+        if probe_raw {
+            let readers = [("the in-memory schema object", new.clone()), ("the persisted schema", reloaded.clone())];
+            raw_index_probes(scope, chain, &chain_str, &new_lineage, nl, &readers, fresh.first(), st);
+        }
         if st.sample.is_none() && chain.len() == 3 && chain[0] != chain[1] && chain[1] != chain[2] {
             st.sample = Some(json!({"scope": scope.full(), "permitted_chain": chain_str, "documents_checked": new_pool.len()}));
         }
@@ -583,6 +806,11 @@ fn explore(scope: Scope, first: &Config, configs: &[Config], max_len: usize, dea
     let pool = write_docs(scope, &slots, first, &lineage, &s0a, 0, &mut st.own_writes_rejected);
     st.docs_written += pool.len() as u64;
     let mut chain = vec![first.clone()];
+    if matches!(scope, Scope::Top | Scope::Nested(Wrap::Direct)) {
+        let readers = [("the in-memory schema object", s0a.clone()), ("the persisted schema", Arc::new(persisted(&s0)))];
+        let cs = cfg_str(&slots, first);
+        raw_index_probes(scope, &chain, &cs, &lineage, n, &readers, pool.first(), &mut st);
+    }
     step(scope, &slots, configs, &mut chain, &s0, &lineage, n, &pool, max_len, deadline, &mut st);
     st
 }
@@ -642,6 +870,8 @@ fn main() {
         run.add("upgrades_permitted", s.upgrades_permitted);
         run.add("documents_written", s.docs_written);
         run.add("failed_reads", s.failed_reads);
+        run.add("newer_document_under_older_schema_reads", s.mixed_version_reads);
+        run.add("raw_index_probe_reads", s.raw_index_probes);
         run.add("valid_documents_rejected_by_their_own_upgraded_schema", s.own_writes_rejected);
         for c in s.chains {
             run.distinct(c);
@@ -661,7 +891,7 @@ fn main() {
         run.violation(f.v);
     }
     run.rule(
-        "all chains of <= 3 (thorough: 4) upgrades over (top) 3 field names x {absent, required T, Option(T), Option(T')} = 64 configurations per version and (nested) one nested struct with 2 keys x the same 4 states = 15 configurations per version, the struct placed directly / in Option / in Array([T]) / as Text- and I64-wildcard-map value / map-in-map / array-in-wildcard-map / Option-in-array (8 placements); every successor configuration is offered to Schema::upgrade_with against the CBOR-persisted predecessor; for each permitted upgrade every document written under every earlier version (all combinations of absent / Null / value per optional slot), both as first stored and as rewritten after the previous upgrade, is read under the new schema — with the in-memory schema object upgrade_with produced and (first-stored bytes) with that schema reloaded from CBOR; optional slots carry absent, Null and non-null values; a slot survives while it stays declared without interruption; distinct = permitted chains; evaluations = document read-backs",
+        "all chains of <= 3 (thorough: 4) upgrades over (top) 3 field names x {absent, required T, Option(T), Option(T')} = 64 configurations per version and (nested) one nested struct with 2 keys x the same 4 states = 15 configurations per version, the struct placed directly / in Option / in Array([T]) / as Text- and I64-wildcard-map value / map-in-map / array-in-wildcard-map / Option-in-array (8 placements); every successor configuration is offered to Schema::upgrade_with against the CBOR-persisted predecessor; for each permitted upgrade every document written under every earlier version (all combinations of absent / Null / value per optional slot), both as first stored and as rewritten after the previous upgrade, is read under the new schema — with the in-memory schema object upgrade_with produced and (first-stored bytes) with that schema reloaded from CBOR; optional slots carry absent, Null and non-null values; mixed-version direction: for every permitted step that adds a top-level field, every document written under the new version is offered to try_from_doc and set_doc under the previous version (in-memory and persisted schema): carrying a value under an index >= the previous watermark => must be refused, otherwise shared fields read unchanged; raw index probes: for every schema version (top scope and the direct nested scope) a valid stored document + one value under index watermark-1 / watermark / watermark+1 (undeclared ones only): never-allocated => refused, retired => stale value dropped and the rest unchanged; a slot survives while it stays declared without interruption; distinct = permitted chains; evaluations = document read-backs",
     );
     run.assume("slot types: x I64/Text, y Vector/F32, z Map{*:I64}/Bytes; nested keys a I64/Text, b F32/U64; which upgrades are permitted is taken from upgrade_with itself (non-permitted upgrades are not part of the property)");
     run.finish();
